@@ -646,6 +646,18 @@ static void phase_exhaustive(int U) {
             table_free();
             if (vf_nviol >= 30) goto out;
         }
+        /* ... and a remove during which every allocation fails (today's remove allocates nothing; a remove that copies the successor would) */
+        if (P == 2) for (int o = 0; o < nid; o++) {
+            table_new(); replay_path(s.path, s.len);
+            vf_case_begin(caseno, "exhaustive U=%d ordering=%s keyclass=%s state#%zu pathlen=%d remove k%d with every allocation failing", U, ORD[ORDI].name, KCLS[kcls], qh - 1, s.len, ids[o]);
+            { char pb[400]; int n = 0; for (int i = 0; i < s.len && n < 380; i++) n += snprintf(pb + n, sizeof pb - (size_t)n, "%c%d ", (s.path[i] & 0x80) ? '-' : '+', s.path[i] & 0x7f); pb[n] = 0; vf_log("path: %s", pb); }
+            vf_oom_k = 1; vf_oom_all = true;
+            op_remove(ids[o]);
+            vf_count("evaluations", 1); vf_count("removes_with_allocations_failing_checked", 1);
+            if (!abandon) structure_check(true);
+            table_free();
+            if (vf_nviol >= 30) goto out;
+        }
     }
 out:
     vf_count("exhaustive_transitions", transitions);
